@@ -77,6 +77,13 @@ func (l *sLeaser) ClusterID(ctx context.Context) (string, error) {
 		// election iteration after the primary role ended: nothing more to decide
 		l.postAcquire++
 		if l.postAcquire == 1 {
+			// nothing happened at the lease service between the check and the acquisition: the same answer
+			switch l.in.CID {
+			case "empty":
+				return "", nil
+			case "different":
+				return cidB, nil
+			}
 			return cidA, nil
 		}
 		return "", errors.New("script: over")
